@@ -4,6 +4,7 @@
 package kobj
 
 import (
+	"k8s.io/apimachinery/pkg/types"
 	"time"
 	"sync/atomic"
 	"fmt"
@@ -187,6 +188,11 @@ type Obj struct {
 	// Ownership of pods does not depend on it; not part of the model's encoding.
 	Scale int
 
+	// Inc: the incarnation of the object under its name (0: no UID at all).  An
+	// object deleted and re-created under the same name gets a new UID; no part
+	// of the library may depend on it.  Not part of the model's encoding.
+	Inc int
+
 	// Terminating: the object carries a deletionTimestamp (graceful deletion in
 	// progress); it is still listed and watched like any other object.  Not part
 	// of the encoding for the model: no part of the library may depend on it.
@@ -232,7 +238,12 @@ func (o *Obj) meta() metav1.ObjectMeta {
 		t := metav1.NewTime(time.Unix(946684800, 0))
 		dt = &t
 	}
+	var uid types.UID
+	if o.Inc > 0 {
+		uid = types.UID(fmt.Sprintf("uid-%d-%d-%d", o.NS, o.NM, o.Inc))
+	}
 	return metav1.ObjectMeta{
+		UID:               uid,
 		DeletionTimestamp: dt,
 		Namespace:       Str(o.NS),
 		Name:            Str(o.NM),
